@@ -64,6 +64,22 @@ class StateFailNode(_PathNode):
         log(f"T {self.tag}")
         raise RuntimeError(f"state of {self.tag} fails")
 
+@_define(kw_only=True)
+class BlobNode:
+    """a product node that is NOT path-like (no `path` attribute): it keeps its value in a file of its own"""
+    where: Path
+    name: str = ""
+    attributes: dict = {}
+    @property
+    def signature(self):
+        return _PathNode(path=self.where).signature
+    def state(self):
+        return _PathNode(path=self.where).state()
+    def load(self, is_product=False):
+        return self.where
+    def save(self, value):
+        self.where.write_text(value)
+
 def make_bad_hash(tag):
     def bad_hash(value):
         log(f"H {tag}")
@@ -187,12 +203,22 @@ def render_module(spec, m: int, src_value=None) -> str:
         faulty_dep = t.get("faulty_dep", deps[0]) if deps and (beh == "loadfail" or setup_fault == "state") else None
         if faulty_dep is not None or setup_fault == "hash":
             style = "annotated"
+        blob = bool(t.get("blob_prods")) and beh != "savefail" and bool(prods)   # optional: products are non-path nodes (rt.BlobNode)
+        if blob:
+            style = "annotated"
         if beh == "savefail" and prods:
             style = "return"
+        is_gen = bool(t.get("gen"))                 # optional: @task(is_generator=True); defines one child task 50+id (C04 generator stream)
+        if is_gen:
+            deco_kwargs.append("is_generator=True")
+            if style == "return":
+                style = "default"
         # after
         aft = t.get("after", [])
         if t.get("bad_after"):                       # optional: an unparsable `after` expression (C08 campaign)
             deco_kwargs.append("after=" + repr(t["bad_after"]))
+        elif t.get("after_expr"):                    # optional: raw `after` expression (may also match the task's own name)
+            deco_kwargs.append("after=" + repr(t["after_expr"]))
         elif aft:
             ast_ = t.get("after_style", "expr")
             if ast_ in ("func", "list") and not all(a in local_ids and a != tid for a in aft):
@@ -241,6 +267,9 @@ def render_module(spec, m: int, src_value=None) -> str:
             else:
                 params.append("produces: dict = {" + ", ".join(f"'{nm}': DATA / 'n{n}.txt'" for nm, n in zip(prod_names, prods)) + "}")
                 body_prods = "[" + ", ".join(f"produces['{nm}']" for nm in prod_names) + "]"
+        elif blob:
+            params += [f"{nm}: Annotated[Path, rt.BlobNode(where=DATA / 'n{n}.txt', name='blob-n{n}'), Product]" for nm, n in zip(prod_names, prods)]
+            body_prods = "[" + ", ".join(prod_names) + "]"
         else:
             params += [f"{nm}: Annotated[Path, Product] = DATA / 'n{n}.txt'" for nm, n in zip(prod_names, prods)]
             body_prods = "[" + ", ".join(prod_names) + "]"
@@ -261,7 +290,14 @@ def render_module(spec, m: int, src_value=None) -> str:
         # the body of a load-fault task does not read the faulty dependency: were the function invoked in spite of the
         # failing load, it would run to completion (and the oracle would see a fired fault without a FAIL report)
         body_deps = [nm for nm, n in zip(dep_names, deps) if not (beh == "loadfail" and n == faulty_dep)]
-        L.append(f"    return rt.body({tid}, SRC, [{', '.join(body_deps)}], {body_prods}, {body_beh!r}, ret={ret!r})")
+        if is_gen:
+            kid = 50 + tid
+            L.append(f"    rt.body({tid}, SRC, [{', '.join(body_deps)}], {body_prods}, {body_beh!r}, ret=None)")
+            L.append(f"    @task(name={tname(kid)!r})")
+            L.append(f"    def _kid(produces: Path = DATA / 'n{7000 + tid}.txt'):")
+            L.append(f"        return rt.body({kid}, SRC, [], [produces], 'ok', ret=None)")
+        else:
+            L.append(f"    return rt.body({tid}, SRC, [{', '.join(body_deps)}], {body_prods}, {body_beh!r}, ret={ret!r})")
         L.append("")
     return "\n".join(L) + "\n"
 
